@@ -177,8 +177,8 @@ def obligations(ctx, cfg):
     if cfg['tier'] == 'thorough':
         obs += [ConsumerRace(ctx, 'C12.d-race-pull-post-delete', ['pull'], ['post', 'delete'], n_out=0, n_back=0),
                 ConsumerRace(ctx, 'C12.d-race-stream-post-delete', ['stream'], ['post', 'delete'], n_out=0, n_back=0),
-                ConsumerRace(ctx, 'C12.d-race-pull-then-stream-delete', ['pull', 'stream'], ['delete'], n_out=0, n_back=0, first=(0,)),
-                ConsumerRace(ctx, 'C12.d-race-stream-then-pull-delete', ['pull', 'stream'], ['delete'], n_out=0, n_back=0, first=(1,)),
+                ConsumerRace(ctx, 'C12.d-race-pull-then-stream-delete', ['pull', 'stream'], ['delete'], n_out=0, n_back=0, first=(0,), select_in_order=True),
+                ConsumerRace(ctx, 'C12.d-race-stream-then-pull-delete', ['pull', 'stream'], ['delete'], n_out=0, n_back=0, first=(1,), select_in_order=True),
                 ConsumerRace(ctx, 'C12.d-race-stream-backlog-delete', ['stream'], ['delete'], n_out=1, n_back=1)]
     return obs
 
